@@ -992,7 +992,8 @@ impl Element {
                     // update the character data
                     {
                         let mut element = self.0.write();
-                        element.content.clear();
+                        // in mixed content the new value also replaces sub elements, which must be removed properly
+                        element.remove_content(&model)?;
                         element.content.push(ElementContent::CharacterData(chardata));
                     }
 
